@@ -2,6 +2,84 @@ package main
 
 // Pure SMT lemmas declared in contract files, and static (syntactic) checks.
 
-func (p *Prog) lemmaObligations(prop string) []*Obl { return nil }
+import (
+	"fmt"
+	"go/token"
+	"go/types"
+	"strings"
+)
+
+func (p *Prog) lemmaObligations(prop string) []*Obl {
+	var out []*Obl
+	for _, l := range p.contracts.Lemmas {
+		rel := contains(l.Props, prop)
+		for _, c := range l.Prove {
+			if hasPropLabel(c.Labels, prop) {
+				rel = true
+			}
+		}
+		if !rel {
+			continue
+		}
+		out = append(out, p.runLemma(l)...)
+	}
+	return out
+}
+
+func (p *Prog) pkgByName(name string) *types.Package {
+	for _, sp := range p.pkgs {
+		if sp.Pkg.Name() == name {
+			return sp.Pkg
+		}
+	}
+	return nil
+}
+
+func (p *Prog) runLemma(l *Lemma) (obls []*Obl) {
+	e := NewExec(p, nil, nil)
+	e.unit = l.Pkg + ".lemma:" + l.Name
+	st := &State{Objs: map[*Object]Value{}, Mem: map[*Region]map[string]T{}, Ghost: map[string]Value{}, Writes: map[string]bool{}, InLoop: map[loopKey]*LoopCtx{}, PathID: "l"}
+	env := &Env{e: e, st: st, old: st, vars: map[string]Value{}, pos: false, pkgName: l.Pkg}
+	defer func() {
+		if r := recover(); r != nil {
+			if ce, ok := r.(contractError); ok {
+				obls = []*Obl{{Unit: e.unit, Name: e.unit + "/contract-error", Kind: "lemma", Goal: False, Expect: "unsat", Status: "unknown", Model: ce.msg, Exec: e, Props: l.Props}}
+				return
+			}
+			panic(r)
+		}
+	}()
+	pkg := p.pkgByName(l.Pkg)
+	for _, v := range l.Vars {
+		parts := strings.SplitN(strings.TrimSpace(v), " ", 2)
+		if len(parts) != 2 {
+			panic(contractError{"lemma vars: expected `name type` in " + v})
+		}
+		tv, err := types.Eval(p.fset, pkg, token.NoPos, strings.TrimSpace(parts[1]))
+		if err != nil {
+			panic(contractError{"lemma var " + v + ": " + err.Error()})
+		}
+		env.vars[parts[0]] = e.materialize(parts[0], tv.Type)
+	}
+	for _, a := range l.Assume {
+		st.assume(env.evalBool(a.E))
+	}
+	env.pos = true
+	for i, c := range l.Prove {
+		g := env.evalBool(c.E)
+		name := fmt.Sprintf("prove#%d", i+1)
+		if len(c.Labels) > 0 {
+			name = fmt.Sprintf("prove[%s]", strings.Join(c.Labels, ","))
+		}
+		labels := c.Labels
+		e.emit(st, name, "lemma", labels, g, fmt.Sprintf("%s:%d", c.File, c.Line))
+	}
+	for _, o := range e.obls {
+		if len(o.Labels) == 0 {
+			o.Props = l.Props
+		}
+	}
+	return e.obls
+}
 
 func (p *Prog) staticObligations(prop string) ([]*Obl, []string) { return nil, nil }
